@@ -618,9 +618,25 @@ def fuzz_judge(agg, d):
 
 # ------------------------------------------------------------------------------------------------
 
+def named_args_shard(args):
+    """Every argument bound by name (reversed order, and positional-then-named) must give what the positional call gives:
+    documented parameter names, driver/stdparams.py."""
+    import stdparams
+    from tablecheck import run_cases as _run_cases
+    agg = Agg()
+    ev = common.Ev(agg)
+    try:
+        _run_cases(agg, ev, stdparams.named_cases(None))
+    finally:
+        ev.close()
+    return agg
+
+
 def run(tier, seed):
     t0 = time.time()
     total = Agg()
+    for a in common.pmap(named_args_shard, [(seed,)]):
+        total.merge(a)
     quick = tier != "thorough"
     # leg 1
     n_bytes = 240_000 if quick else 6_000_000
@@ -689,7 +705,7 @@ def run(tier, seed):
             "small pool, the binder matrix of C09) evaluated for the outcome class; nesting towers of every recursive construct through the CLI; thorough tier: the "
             "byte-level workload again on an ASan/LSan build, and a coverage-guided libFuzzer campaign (ASan, debug assertions, "
             "overflow checks) through load/evaluate/manifest and the Session diagnostics, every kept artifact re-run alone. "
-            "distinct_nontrivial = distinct inputs that got past the lexer (bytes leg) + distinct builtin calls + "
+            "documented parameter names: every argument bound by name (reversed order, and positional-then-named) gives what the positional call gives (driver/stdparams.py). distinct_nontrivial = distinct inputs that got past the lexer (bytes leg) + distinct builtin calls + "
             "distinct CLI cases.")
     return common.finish(PROP, tier, seed, total, rule, t0,
                          assumptions=["resource exhaustion (OOM, timeouts) is inconclusive, not a verdict",
